@@ -1579,12 +1579,8 @@ func (c *Check) ruleConfirmedStateComplete(rule string) {
 		if rs == nil {
 			continue
 		}
-		if sl, ok := rs.Type().Underlying().(*types.Slice); ok {
-			if p, ok := sl.Elem().(*types.Pointer); ok {
-				if n, ok := p.Elem().(*types.Named); ok && n.Obj().Name() == "MsgTx" {
-					loops = append(loops, h)
-				}
-			}
+		if isTxListType(rs.Type()) {
+			loops = append(loops, h)
 		}
 	}
 	c.Min(rule, "loops over the block's relevant txs in ProcessBlock", len(loops), 1)
@@ -2410,4 +2406,31 @@ func helperFalseImpliesNotSentinel(h *ssa.Function, g *ssa.Global) bool {
 		}
 	}
 	return ok && n > 0
+}
+
+// isTxListType: a list of *wire.MsgTx, or of small records that hold a *wire.MsgTx next to its flags.
+func isTxListType(t types.Type) bool {
+	sl, ok := t.Underlying().(*types.Slice)
+	if !ok {
+		return false
+	}
+	isTxPtr := func(t types.Type) bool {
+		if p, ok := t.(*types.Pointer); ok {
+			if n, ok := p.Elem().(*types.Named); ok && n.Obj().Name() == "MsgTx" {
+				return true
+			}
+		}
+		return false
+	}
+	if isTxPtr(sl.Elem()) {
+		return true
+	}
+	if st, ok := sl.Elem().Underlying().(*types.Struct); ok && st.NumFields() <= 6 {
+		for i := 0; i < st.NumFields(); i++ {
+			if isTxPtr(st.Field(i).Type()) {
+				return true
+			}
+		}
+	}
+	return false
 }
